@@ -5,6 +5,7 @@ package fsmx
 
 import (
 	"bytes"
+	"errors"
 	"fmt"
 	"github.com/cockroachdb/pebble"
 	"hash/fnv"
@@ -335,7 +336,13 @@ type CountFS struct {
 	Log       []Op
 	Keep      bool // record Log
 	calls     atomic.Int64
+	// FailOp > 0: the operation numbered FailOp-1 fails once with ErrInjected instead of reaching the
+	// file system (an I/O error, not a crash: the caller sees it and unwinds)
+	FailOp int
 }
+
+// ErrInjected is the error of an operation failed through CountFS.FailOp.
+var ErrInjected = errors.New("verif: injected I/O error")
 
 func (c *CountFS) Arm(k int) {
 	c.mu.Lock()
@@ -420,8 +427,17 @@ func allDigits(s string) bool {
 	return true
 }
 
-func (c *CountFS) op(kind, path string) {
+func (c *CountFS) op(kind, path string) error {
 	c.mu.Lock()
+	if c.FailOp > 0 && c.n == c.FailOp-1 {
+		c.FailOp = 0
+		c.n++
+		if c.Keep {
+			c.Log = append(c.Log, Op{kind + "(failed)", Canon(path)})
+		}
+		c.mu.Unlock()
+		return ErrInjected
+	}
 	if c.armAt >= 0 && c.n == c.armAt && !c.fired {
 		c.fired = true
 		if c.KeepCache {
@@ -434,10 +450,13 @@ func (c *CountFS) op(kind, path string) {
 		c.Log = append(c.Log, Op{kind, Canon(path)})
 	}
 	c.mu.Unlock()
+	return nil
 }
 
 func (c *CountFS) Create(name string) (vfs.File, error) {
-	c.op("create", name)
+	if err := c.op("create", name); err != nil {
+		return nil, err
+	}
 	f, err := c.FS.Create(name)
 	if err != nil {
 		return nil, err
@@ -445,7 +464,12 @@ func (c *CountFS) Create(name string) (vfs.File, error) {
 	return &countFile{File: f, c: c, path: name}, nil
 }
 
-func (c *CountFS) Link(o, n string) error { c.op("link", n); return c.FS.Link(o, n) }
+func (c *CountFS) Link(o, n string) error {
+	if err := c.op("link", n); err != nil {
+		return err
+	}
+	return c.FS.Link(o, n)
+}
 
 func (c *CountFS) Open(name string, opts ...vfs.OpenOption) (vfs.File, error) {
 	f, err := c.FS.Open(name, opts...)
@@ -463,11 +487,28 @@ func (c *CountFS) OpenDir(name string) (vfs.File, error) {
 	return &countFile{File: f, c: c, path: name, dir: true}, nil
 }
 
-func (c *CountFS) Remove(name string) error    { c.op("remove", name); return c.FS.Remove(name) }
-func (c *CountFS) RemoveAll(name string) error { c.op("removeall", name); return c.FS.RemoveAll(name) }
-func (c *CountFS) Rename(o, n string) error    { c.op("rename", n); return c.FS.Rename(o, n) }
+func (c *CountFS) Remove(name string) error {
+	if err := c.op("remove", name); err != nil {
+		return err
+	}
+	return c.FS.Remove(name)
+}
+func (c *CountFS) RemoveAll(name string) error {
+	if err := c.op("removeall", name); err != nil {
+		return err
+	}
+	return c.FS.RemoveAll(name)
+}
+func (c *CountFS) Rename(o, n string) error {
+	if err := c.op("rename", n); err != nil {
+		return err
+	}
+	return c.FS.Rename(o, n)
+}
 func (c *CountFS) ReuseForWrite(o, n string) (vfs.File, error) {
-	c.op("reuse", n)
+	if err := c.op("reuse", n); err != nil {
+		return nil, err
+	}
 	f, err := c.FS.ReuseForWrite(o, n)
 	if err != nil {
 		return nil, err
@@ -476,7 +517,9 @@ func (c *CountFS) ReuseForWrite(o, n string) (vfs.File, error) {
 }
 
 func (c *CountFS) MkdirAll(dir string, perm os.FileMode) error {
-	c.op("mkdirall", dir)
+	if err := c.op("mkdirall", dir); err != nil {
+		return err
+	}
 	return c.FS.MkdirAll(dir, perm)
 }
 
@@ -488,15 +531,19 @@ type countFile struct {
 }
 
 func (f *countFile) Write(p []byte) (int, error) {
-	f.c.op("write", f.path)
+	if err := f.c.op("write", f.path); err != nil {
+		return 0, err
+	}
 	return f.File.Write(p)
 }
 
 func (f *countFile) Sync() error {
+	kind := "sync"
 	if st, err := f.File.Stat(); err == nil && st.IsDir() {
-		f.c.op("syncdir", f.path)
-	} else {
-		f.c.op("sync", f.path)
+		kind = "syncdir"
+	}
+	if err := f.c.op(kind, f.path); err != nil {
+		return err
 	}
 	return f.File.Sync()
 }
